@@ -19,3 +19,87 @@ def front(ctx, mode, sources, label, model_ok=True, project=None):
         ctx.unproved(f"tie:{mode}", f"model and implementation differ on {len(dis)} of {len(sources)} inputs of stream {label}",
                      {"input": s, "impl": a[-2000:], "model": b[-2000:], "more_inputs": [d[0] for d in dis[1:6]]})
     return impl, dis
+
+
+# ---------------------------------------------------------------------------- run level
+import re as _re
+
+
+def canon_stderr(e):
+    """cut what LALRPOP's tables dictate: the `; expected …` tail and the Debug payload of a slot parse error"""
+    e = _re.sub(r"; expected .*", "", e, flags=_re.S)
+    e = _re.sub(r"(couldn't parse interpolation slot: ).*", r"\1", e, flags=_re.S)
+    return e.rstrip("\n")
+
+
+def proj_full(r):
+    return (r["stdout"], r["status"], canon_stderr(r["stderr"]))
+
+
+_POS = _re.compile(r"^[^\n:]*:(\d+:\d+):")
+_TRACE = _re.compile(r"^  [^\n:]*:(\d+:\d+): in '([^']*)'$", _re.M)
+
+
+def proj_out_pos(r):
+    """stdout, status, position of the diagnostic and of every stack-trace line (no message text)"""
+    e = r["stderr"]
+    m = _POS.match(e)
+    return (r["stdout"], r["status"], m.group(1) if m else ("" if not e else "nopos"), tuple(_TRACE.findall(e)))
+
+
+def proj_out_status(r):
+    return (r["stdout"], r["status"])
+
+
+def run(ctx, sources, label, model_ok=True, project=proj_full, path="t.sd", fuel=3000000, reconfirm=True):
+    """whole-run level: returns (impl_results, disagreements[(src, impl, model)]).
+    Model time-outs are excluded (counted).  Disagreements are re-run through the unmodified CLI path and
+    only count if the CLI agrees with the hook; 1 % of agreeing cases validate the hook itself."""
+    impl = core.run_batch("impl", sources, path=path)
+    ctx.count(label + ":run", len(sources))
+    ctx.last_model = None
+    if not model_ok:
+        return impl, []
+    model = core.run_batch("model", sources, path=path, fuel=fuel)
+    ctx.last_model = model
+    dis = []
+    agree = []
+    for s, a, b in zip(sources, impl, model):
+        if b["status"] == "timeout" or b["status"].startswith("died"):
+            ctx.exclude("model_timeout" if b["status"] == "timeout" else "model_resource_limit")
+            continue
+        ctx.cov["traces_validated_against_impl"] += 1
+        if project(a) != project(b):
+            dis.append((s, a, b))
+        else:
+            agree.append((s, a))
+    if reconfirm and agree:
+        k = max(1, len(agree) // 100)
+        pick = ctx.rng.sample(agree, min(k, len(agree)))
+        res = core.cli_batch([s for s, _ in pick], path=path)
+        ctx.cov["cli_reconfirmed"] += len(pick)
+        for (s, a), r in zip(pick, res):
+            if proj_full(r) != proj_full(a):
+                ctx.unproved("hook:run", "the batch hook and the command-line path differ", {"input": s, "hook": a, "cli": r})
+                break
+    if dis:
+        confirmed = []
+        res = core.cli_batch([s for s, _, _ in dis[:200]], path=path)
+        ctx.cov["cli_reconfirmed"] += len(res)
+        for (s, a, b), r in zip(dis, res):
+            if proj_full(r) == proj_full(a) or (a["status"] == "101" and r["status"] == "101"):
+                confirmed.append((s, a, b))
+        dis = confirmed + dis[200:]
+        if dis:
+            ctx.cov["model_impl_disagreements"] += len(dis)
+    return impl, dis
+
+
+def report_disagreements(ctx, dis, label, level="run"):
+    """no oracle failure explains them: the correspondence no longer checks"""
+    if not dis:
+        return
+    dis = sorted(dis, key=lambda t: len(t[0]))
+    s, a, b = dis[0]
+    ctx.unproved(f"tie:{level}", f"model and implementation differ on {len(dis)} inputs of stream {label}",
+                 {"input": s, "impl": a, "model": b, "more_inputs": [d[0] for d in dis[1:4]]})
